@@ -28,6 +28,10 @@ pub fn matches(f: &Finding, v: &Violation) -> bool {
         }
         "repair" => {
             let name = f.params["repair"].as_str().unwrap_or("");
+            // F14 explains an exit status only when the read failure is the *only* reason for a non-zero status
+            if name == "cli_f14" && !(v.oracle == "exit-status" && v.detail.contains("(0 changed input(s),")) {
+                return false;
+            }
             match repair(name, &v.input) {
                 Some(r) if r != v.input => recheck(v, &r) == Some(false),
                 _ => false,
